@@ -797,16 +797,16 @@ def run(ctx):
     asan = ctx.flavour == 'asan'
     div = 8 if asan else 1
 
-    for i in ctx.cases('strain', ctx.pick(90, 540) // div):
+    for i in ctx.cases('strain', ctx.pick(90, 810) // div):
         run_strain_case(ctx, am, i)
-    for i in ctx.cases('nyefield', ctx.pick(48, 240) // div):
+    for i in ctx.cases('nyefield', ctx.pick(48, 384) // div):
         run_nyefield_case(ctx, am, i)
-    for i in ctx.cases('slip', ctx.pick(72, 432) // div):
+    for i in ctx.cases('slip', ctx.pick(72, 648) // div):
         run_slip_case(ctx, am, i)
-    for i in ctx.cases('displacement', ctx.pick(120, 720) // div):
+    for i in ctx.cases('displacement', ctx.pick(120, 1080) // div):
         run_displacement_case(ctx, am, i)
     if not asan:
-        for i in ctx.cases('legacy-dd', ctx.pick(8, 30)):
+        for i in ctx.cases('legacy-dd', ctx.pick(8, 40)):
             run_legacydd_case(ctx, am, i)
 
     for k, v_ in monitor.calls.items():
